@@ -11,15 +11,188 @@ MANIFEST = {
     "text": "the model of the repaired tree takes no enumeration-order argument at all (definition and singleton registries enumerate "
             "in name order; theorem: the outcome is a function of the component set), and every scenario is started under several "
             "registration permutations and repetitions (Go randomises map iteration natively): each run must equal the model and "
-            "the runs must agree with each other",
+            "the runs must agree with each other; registration phase: c10_refusal_order_irrelevant (whether a component set is refused "
+            "does not depend on the registration order), checked on sets with several components under one name (distinct zero-size "
+            "types among them) started in every relative registration order",
     "design_ref": "DESIGN.md 5 C10",
     "note": "trusted: as C01; the parallel scanning phase is covered by C20's interleaving model, here only its result is observed",
     "technique": "Rocq proof (permutation invariance of the model) + vm_compute correspondence under permuted registration orders",
 }
 
 PROFILES = [(Profile(p_wrap=0.3, n_procs=(0, 2), p_cycle_bias=0.8, p_primary=0.3, p_extra_instance=0.4), 130, 1200)]
+# component sets in which several components announce ONE name (the start must be refused in every registration order)
+SHARED_PROFILE = Profile(p_wrap=0.0, n_procs=(0, 1), n_bare=(2, 4), p_sealed=0.5, p_naming=0.7, p_extra_instance=0.3,
+                         p_valid=0.8, min_types=1, max_types=4,
+                         kind_weights={"ptr": 2, "iface": 3, "sptr": 1, "siface": 3, "name": 4, "any": 2, "func": 0.3, "other": 0})
+REG_HEADER = ("From Coq Require Import List Arith Bool.\nFrom IocVerif Require Import Model.SingletonRegistry Corr.Check_C10reg.\n"
+              "Import ListNotations.\nNotation case := dcase.\n")
+OUTCOME_CODE = {"ok": 0, "err": 1, "panic": 2, "regpanic": 3}
+
+
+def share_names(rng, scn):
+    """Make several components of a generated scenario announce one name.  Classes:
+    zz  two or more bare ZERO-SIZE types with the same constant Naming() (different components at one address)
+    zs  a zero-size and a sized bare type with the same constant name
+    zr  a bare zero-size type whose constant name is the custom name of an ordinary component
+    rr  two ordinary components (with state) given the same custom name
+    none  names stay unique (control: such a set must NOT be refused)
+    Returns the class that could be built."""
+    types, comps = scn["types"], scn["comps"]
+    zero = [ci for ci, c in enumerate(comps) if types[c["type"]].get("bare") == "zero"]
+    sized = [ci for ci, c in enumerate(comps) if types[c["type"]].get("bare") == "sized"]
+    named = [ci for ci, c in enumerate(comps) if not types[c["type"]].get("bare") and types[c["type"]]["naming"]
+             and c["name"] and c["proc"] is None]
+    want = rng.choice(["zz", "zz", "zz", "zz", "zs", "zs", "zr", "zr", "rr", "none"])
+    old = {ci: wiring.regname_of(scn, ci) for ci in range(len(comps))}
+
+    def set_bare(ci, nm):
+        t = types[comps[ci]["type"]]
+        t["naming"], t["const_name"] = True, nm
+        comps[ci]["name"] = nm
+
+    def build(k):
+        if k == "zz" and len(zero) >= 2:
+            return rng.sample(zero, rng.randint(2, min(3, len(zero))))
+        if k == "zs" and zero and sized:
+            return [rng.choice(zero), rng.choice(sized)]
+        if k == "zr" and zero and named:
+            return [rng.choice(named), rng.choice(zero)]
+        if k == "rr" and len(named) >= 2:
+            return rng.sample(named, 2)
+        return []
+
+    group = []
+    if want != "none":
+        for k in [want, "zz", "zs", "zr", "rr"]:
+            group = build(k)
+            if group:
+                want = k
+                break
+        else:
+            want = "none"
+    if group:
+        g0 = comps[group[0]]
+        nm = g0["name"] or "shared%d" % rng.randint(0, 9)
+        for ci in group:
+            if types[comps[ci]["type"]].get("bare"):
+                set_bare(ci, nm)
+            else:
+                comps[ci]["name"] = nm
+        # by-name points that asked for a member of the group under its former name ask for the shared name now
+        renamed = {old[ci] for ci in group}
+        for t in types:
+            for p in t["fields"]:
+                if p["sel"][0] == "name" and p["sel"][1] in renamed:
+                    p["sel"] = ("name", nm)
+    scn["shared"] = {"class": want, "group": group}
+    return want
+
+
+def registration_orders(rng, ncomps, group, cap=6):
+    """registration orders of one scenario: every relative order of the components that share the name (all of them for
+    groups of two or three), the bystanders shuffled around them"""
+    import itertools
+    rel = list(itertools.permutations(group)) if group else [()]
+    rng.shuffle(rel)
+    if not group:
+        rel = rel * 3
+    orders = []
+    for r in rel[:cap]:
+        order = list(range(ncomps))
+        rng.shuffle(order)
+        slots = [i for i, ci in enumerate(order) if ci in group]
+        for sl, ci in zip(slots, r):
+            order[sl] = ci
+        orders.append(order)
+    return orders
+
+
+def projection(res):
+    """order-insensitive projection of a successful start: every point's value (slices as sets), every lookup"""
+    if res["outcome"] != "ok":
+        return None
+    fields = sorted((f["h"], f["k"], sorted((t["o"], t["p"]) for t in f["v"] or [])) for f in res.get("fields") or [])
+    lks = [(lo["name"], bool(lo["panic"]), bool(lo["err"]), (lo["tok"]["o"], lo["tok"]["p"])) for lo in res.get("lookups") or []]
+    return json.dumps([fields, lks], sort_keys=True)
+
+
+def shared_name_stream(ctx, cov, replay_case=None):
+    """the registration phase: component sets with several components under one name, started through the real App in
+    every relative registration order of those components; returns (failing case descriptions, ok flag)"""
+    rng = ctx.rng
+    n = 100 if ctx.quick() else 800
+    scns, classes = [], {}
+    for i in range(0 if replay_case else n):
+        s = wiring.gen_scenario(rng, i, SHARED_PROFILE)
+        k = share_names(rng, s)
+        classes[k] = classes.get(k, 0) + 1
+        scns.append(s)
+    if replay_case:
+        scns = [replay_case["scenario"]]
+    binp = wiring.build_batch(ctx, scns, "shared")
+    facts = wiring.get_facts(ctx, binp)
+    cfgs, meta = [], []
+    for s in scns:
+        base = wiring.runtime_cfg(s, facts, shared_names=True)
+        orders = ([r["regorder"] for r in replay_case["runs"]] if replay_case
+                  else registration_orders(rng, len(s["comps"]), s["shared"]["group"]))
+        for order in orders:
+            c = copy.deepcopy(base)
+            c["regorder"], c["id"], c["trace"] = order, len(cfgs), False
+            cfgs.append(c)
+            meta.append(s["id"])
+    results = wiring.run_batch(ctx, binp, cfgs, "shared")
+    per = {}
+    for c, sid in zip(cfgs, meta):
+        if results.get(c["id"]) is not None:
+            per.setdefault(sid, []).append((c, results[c["id"]]))
+    nid, terms, by_id, outcomes, nruns = {}, [], {}, {}, 0
+    for s in scns:
+        runs = per.get(s["id"], [])
+        if not runs:
+            continue
+        digests, druns = {}, []
+        for c, r in runs:
+            nruns += 1
+            outcomes[r["outcome"]] = outcomes.get(r["outcome"], 0) + 1
+            reqs = []
+            for ci in c["regorder"]:
+                comp = s["comps"][ci]
+                cust = "(Some %d)" % nid.setdefault(comp["name"], len(nid)) if comp["name"] else "None"
+                dflt = nid.setdefault("%s/%s" % (wiring.PKG, wiring.go_type_name(s["id"], comp["type"])), len(nid))
+                # the registered name the model uses must be the one the implementation reports
+                if (r.get("regnames") or [None] * len(s["comps"]))[ci] != wiring.regname_of(s, ci):
+                    cust = "(Some %d)" % nid.setdefault("??%d" % ci, len(nid))
+                reqs.append("(mkReq %d %s %d)" % (ci, cust, dflt))
+            pj = projection(r)
+            dg = 0 if pj is None else digests.setdefault(pj, len(digests) + 1)
+            druns.append("(mkDR %s %d %d)" % (vlib.coq_list(reqs), OUTCOME_CODE.get(r["outcome"], 4), dg))
+        terms.append("(mkD %d %s)" % (s["id"], vlib.coq_list(druns)))
+        by_id[s["id"]] = {"scenario": s, "stream": "shared names",
+                          "runs": [{"regorder": c["regorder"], "observation": r} for c, r in runs]}
+    out = vlib.coq_eval_sharded(ctx, "cases_c10reg", REG_HEADER, terms,
+                                {"DM": "dmismatches", "DV": "dviolations", "DNT": "dcount_nontrivial"}, shard=100)
+    ctx.oblige("registration phase: refused exactly when the model's registration loop panics (every order)", not out["DM"],
+               "%d disagreeing" % len(out["DM"]))
+    ctx.oblige("registration phase: every registration order ends alike; a set with two components under one name is refused",
+               not out["DV"], "%d failing" % len(out["DV"]))
+    ctx.log("shared-name sets=%d runs=%d mismatches=%d violations=%d nontrivial=%d classes=%s outcomes=%s" % (
+        len(by_id), nruns, len(out["DM"]), len(out["DV"]), sum(out["DNT"]), classes, outcomes))
+    cov["shared_name_sets"] = {"scenarios": len(by_id), "runs": nruns, "nontrivial": sum(out["DNT"]), "outcomes": outcomes,
+                               "failures": {"mismatch": out["DM"][:10], "oracle": out["DV"][:10]}}
+    cov["input_distribution"]["shared_name_sets"] = {
+        "classes": classes,
+        "class_meaning": "zz: 2-3 zero-size types, one constant name; zs: zero-size + sized bare type; zr: zero-size type + "
+                         "ordinary named component; rr: two ordinary components; none: unique names (control)",
+        "orders_per_set": "every relative order of the components sharing the name (2 or 6), bystanders shuffled"}
+    size = lambda i: (i not in out["DV"], len(by_id[i]["scenario"]["comps"]), i)
+    return [by_id[i] for i in sorted(set(out["DV"] + out["DM"]), key=size)[:3]]
+
+
 RULE = ("each generated scenario is started under K registration permutations x R repetitions (quick 4x2, thorough 8x3); "
-        "non-trivial = the scenario has a cycle, a substituting processor or a single-valued point with >= 2 providers")
+        "non-trivial = the scenario has a cycle, a substituting processor or a single-valued point with >= 2 providers; "
+        "plus component sets in which several components announce one name (shared_name_sets), started in every relative "
+        "registration order of those components")
 
 
 def run(ctx):
@@ -68,11 +241,18 @@ def run(ctx):
                                     terms, defs, shard=60)
         return by_id, out, len(cfgs)
 
+    replay_shared = None
     if ctx.replay:
-        scns = [json.load(open(ctx.replay))["case"]["scenario"]]
+        rcase = json.load(open(ctx.replay))["case"]
+        scns = [rcase["scenario"]]
+        if rcase.get("stream") == "shared names":
+            replay_shared, scns = rcase, []
     else:
         scns = wiring.std_scenarios(PROFILES)(ctx, ctx.tier)
-    by_id, out, nruns = evaluate(scns, "main")
+    if scns:
+        by_id, out, nruns = evaluate(scns, "main")
+    else:
+        by_id, out, nruns = {}, {"M": [], "V": [], "NT": []}, 0
     M, V, nt = out["M"], out["V"], sum(out["NT"])
     st = wiring.scenario_stats(scns, by_id)
     ctx.log("scenarios=%d runs=%d mismatches=%d violations=%d nontrivial=%d outcomes=%s" % (len(by_id), nruns, len(M), len(V), nt, st["outcomes"]))
@@ -88,4 +268,11 @@ def run(ctx):
     cov = {"evaluations": nruns, "distinct_nontrivial": min(nt, len({wiring.shape_hash(s) for s in scns})), "rule": RULE,
            "samples": [by_id[i] for i in sorted(by_id)[:1]], "traces_validated_against_impl": nruns,
            "input_distribution": st, "permutations": K, "repetitions": R, "scenarios": len(by_id)}
-    return vlib.decide(ctx, static_ok, by_id, M, V, cov, widen=widen)
+    reg_bad = shared_name_stream(ctx, cov, replay_shared) if (replay_shared or not ctx.replay) else []
+    rc = vlib.decide(ctx, static_ok, by_id, M, V, cov, widen=widen)
+    if rc == 0 and reg_bad:
+        rp = vlib.write_replay(ctx, "viol", {"property": "C10", "kind": "component set under permuted registration orders "
+                                                                        "(shared names)", "case": reg_bad[0]})
+        vlib.violation(ctx, rp)
+        return 1
+    return rc
